@@ -54,6 +54,7 @@ type Contract struct {
 	Safety   bool // generate safety obligations (panic, nil, index, div) for this function
 	DynPure  bool
 	Shared   []string
+	FrameAssumed bool
 	Rely     []*Clause
 	Atomic   bool
 	Props    []string
@@ -255,6 +256,9 @@ func ParseContracts(pkgPath, filename string, file *ast.File, fsetLine func(ast.
 				cur.Inline = true
 			case "safety":
 				cur.Safety = true
+			case "frame-assumed":
+				// the 'assigns' list is used at call sites but not verified for this function's body (stated assumption)
+				cur.FrameAssumed = true
 			case "shared":
 				// heap components other goroutines may write between any two atomic steps of this function
 				for _, a := range strings.Split(rest, ",") {
